@@ -79,6 +79,22 @@ add("C17", "exploration",
     "The two exclusions stated in the property are removed by construction (counted in evidence).",
     "DESIGN.md section 5 C17")
 
+add("C10", "exploration",
+    "property-based testing against brute-force / independent max-plus DP optimum plus feasibility predicates (validity predicate, ties allowed)",
+    "Generated trees (incl. empty clones, 1-4 roots), dims 1-3, grids 2-101, tie-heavy and continuous data: every reported CCF must lie on the grid, satisfy the sum constraints, reach the brute-force maximum (value compared) and give non-negative clonal prevalences.",
+    "Brute force for G^K <= 20000, otherwise a harness DP that is cross-checked against the brute force on the small cases of the same run.",
+    "DESIGN.md section 5 C10")
+add("C13", "exploration",
+    "property-based testing with a recording/scripted generator: parameters of every draw compared with the target density's closed form; numerical 2-D quadrature of the implemented kernel against the conditional posterior; call-site check with a stub sampler",
+    "Every draw's distribution parameters (Beta, Bernoulli weight, Gamma shape/rate) are checked for generated (a, b, alpha, K, n, eta); the implemented kernel is integrated numerically against p(alpha|K,n) for several (a,b,K,n); the run loop's K, n extraction and propagation of the new value are checked on generated trees with outliers.",
+    "Observation point is Generator.beta/binomial/standard_gamma (reached by scipy .rvs(random_state=rng)); quadrature by scipy.integrate.quad.",
+    "DESIGN.md section 5 C13")
+add("C14", "exploration",
+    "differential property testing over generated call histories: every memoised call is shadowed by its unmemoised __wrapped__ original and compared at call time; cache hits measured",
+    "Generated histories of sampler sweeps, relabels, concentration changes with/without cache clears, kernel switches and direct call streams; each memoised result (arrays, proposal distributions, cached new-clone trees) must equal the unmemoised computation at that moment.",
+    "Relies on __wrapped__ exposing the undecorated function; harness-side monkeypatching of the module attributes the samplers call through.",
+    "DESIGN.md section 5 C14")
+
 NOT_APPLICABLE = []
 
 def main():
